@@ -72,6 +72,7 @@ def secSix : List (String × String) :=
 
 def checkCase (j : Json) : Except String Verdict := do
   let mut v : Verdict := {}
+  let mut profileCache : List ((String × List String) × List String) := []
   if !(getJ j "setupError").isNull then return v.diff 0 "setup" "ok" (getJ j "setupError") ["C07", "C08", "C09", "C10"]
   let cfgj ← jget j "cfg"
   let roots := (strs cfgj "roots").map fun d => if d.startsWith "." then d else "." ++ d
@@ -202,7 +203,15 @@ def checkCase (j : Json) : Except String Verdict := do
             let userinfo : Except PErr (List String) := match strD ui "kind" with
               | "ok" => .ok (strs ui "groups")
               | _ => .error (perrOf slug ui)
-            let (mem, calls) := oktaMembership allowed (strD hdrs "X-Access-Token") userinfo
+            -- the provider sits behind the authenticator's group cache (C17): a question answered successfully before in
+            -- this process is answered again from the cache, without a call
+            let key := (email, allowed.toArray.qsort (· < ·) |>.toList)
+            let (mem, calls) := match profileCache.find? (·.1 == key) with
+              | some (_, gs) => (Except.ok gs, ([] : List String))
+              | none => oktaMembership allowed (strD hdrs "X-Access-Token") userinfo
+            match mem with
+            | .ok gs => if email != "" && !(profileCache.any (·.1 == key)) then profileCache := (key, gs) :: profileCache
+            | .error _ => pure ()
             let (o, _) := profileH email mem
             let js := getJ out "json"
             match o with
